@@ -243,13 +243,13 @@ def need_cutoff(A):
     return A.cutoff is None
 
 
-contract(f"{FH}::ForecastingHorizon.to_relative", "C02", cases=SELF_CASES + ["rel|Int64Index|nocut", "abs|Int64Index|nocut"],
+contract(f"{FH}::ForecastingHorizon.to_relative", "C02,C03", cases=SELF_CASES + ["rel|Int64Index|nocut", "abs|Int64Index|nocut"],
          frame=lambda A: [A.self], inputs=_self_inputs(lambda B, case: {"cutoff": None if "nocut" in case else B.int("cutoff")}),
          raises=[("ValueError", lambda A: (not A.self.attrs["_is_relative"]) and A.cutoff is None)],
          result=new_fh_result(rel_vals, lambda A: True),
          ensures=[("relative-steps", fh_result_is(rel_vals, lambda A: True))])
 
-contract(f"{FH}::ForecastingHorizon.to_absolute", "C02", cases=SELF_CASES + ["rel|Int64Index|nocut", "abs|Int64Index|nocut"],
+contract(f"{FH}::ForecastingHorizon.to_absolute", "C02,C03", cases=SELF_CASES + ["rel|Int64Index|nocut", "abs|Int64Index|nocut"],
          frame=lambda A: [A.self], inputs=_self_inputs(lambda B, case: {"cutoff": None if "nocut" in case else B.int("cutoff")}),
          raises=[("ValueError", lambda A: A.self.attrs["_is_relative"] and A.cutoff is None)],
          result=new_fh_result(abs_vals, lambda A: False),
